@@ -316,6 +316,14 @@ func eqIntsAny(p interface{}, g []int) bool {
 	return false
 }
 
+// selection is the fork a CheckFork answer selects: (nonce, hash), or nothing (no fork / the "stuck" answer)
+func selection(c M) string {
+	if c["det"].(bool) && vtrace.Int(c["nonce"]) < inf {
+		return fmt.Sprint(c["nonce"], "/", c["h"])
+	}
+	return "none"
+}
+
 type reporter struct {
 	nviol   map[string]int
 	ndrift  int
@@ -447,6 +455,7 @@ func twin(path string) {
 		var sa, sb *sut
 		drifted := false
 		grouped := false
+		asym := false
 		key := ""
 		for si, st := range b {
 			where := fmt.Sprintf("twin behaviour %d step %d (%s)", bi, si, st.A)
@@ -461,11 +470,17 @@ func twin(path string) {
 			if st.A == "Group" {
 				groups++
 				grouped = true
+				ea, eb := map[int]string{}, map[int]string{}
 				for _, id := range vtrace.Ints(st.In["oa"]) {
-					sa.apply("AddHeader", M{"h": id, "state": "recv", "nl": []interface{}{}}, rep.violation)
+					ea[id] = fmt.Sprint(sa.apply("AddHeader", M{"h": id, "state": "recv", "nl": []interface{}{}}, rep.violation)["err"])
 				}
 				for _, id := range vtrace.Ints(st.In["ob"]) {
-					sb.apply("AddHeader", M{"h": id, "state": "recv", "nl": []interface{}{}}, rep.violation)
+					eb[id] = fmt.Sprint(sb.apply("AddHeader", M{"h": id, "state": "recv", "nl": []interface{}{}}, rep.violation)["err"])
+				}
+				for id, e := range ea {
+					if eb[id] != e {
+						asym = true // a member was accepted in one arrival order and rejected in the other
+					}
 				}
 				ga, gb = M{"x": 0}, M{"x": 0}
 			} else {
@@ -485,10 +500,16 @@ func twin(path string) {
 				if ca["det"].(bool) || cb["det"].(bool) {
 					forkStates++
 				}
-				if fmt.Sprint(ca["det"], ca["nonce"], ca["h"]) != fmt.Sprint(cb["det"], cb["nonce"], cb["h"]) {
-					rep.violation("C20/"+sa.kind+"/fork-choice-depends-on-arrival-order",
-						fmt.Sprintf("%s detector: two runs that differ only by the arrival order of competing received headers answer CheckFork differently at %s: A=%v B=%v",
-							sa.kind, where, ca, cb))
+				if selection(ca) != selection(cb) {
+					sig := "C20/" + sa.kind + "/fork-choice-depends-on-arrival-order"
+					note := ""
+					if asym {
+						sig += "/member-rejected-in-one-order-only"
+						note = " (a member of the group was rejected by AddHeader in one arrival order and accepted in the other)"
+					}
+					rep.violation(sig,
+						fmt.Sprintf("%s detector: two runs that differ only by the arrival order of competing received headers answer CheckFork differently at %s: A=%v B=%v%s",
+							sa.kind, where, ca, cb, note))
 				}
 			}
 			if !drifted {
